@@ -19,6 +19,7 @@ CLAIM = (
     "comprehensions, asserts); (8) docutils, re.compile and ast.parse run on input-derived text only inside handlers covering their failures."
     " KEYED: a local mapping that is subscripted with the elements of a local list receives an entry for every element appended to that list "
     "(otherwise the report that uses the mapping raises KeyError)."
+    " SKIPS (shared with C06): the verification and resolution loops of the front end have no more `continue` / `break` / in-loop `return` statements, comprehension filters or filter conjuncts than the reference read on the unchanged tree - a check that leaves more elements unexamined accepts models on which later stages assert."
 )
 NOTE = (
     "Trusted base: the resolver and CFG; the frozen table of lengths guaranteed by the Python grammar; one named exception "
@@ -81,6 +82,14 @@ def run(ctx) -> None:
     seq.check_sequence(ctx, lm, "SEQ", FRONT, lambda n: seq.returns_value_none(n) and not _in_cache_branch(lm, n), "load_model: ")
     exitcode.check_exit_contract(ctx, p.func("main:execute"), "ERR4")
 
+    # a verification loop of the front end that skips more than it did lets a model through on which later stages assert
+    ctx.rule("SKIPS", "verification/resolution loops of the front end have no more continue/break/return-in-loop statements and comprehension filters than the reference read on the unchanged tree (shared with C06)", floor=40)
+    from ..rules import skips as _skips
+    _base = _skips.load_baseline()
+    for _m in ctx.p.modules.values():
+        if _m.name in ("aas_core_codegen.intermediate._translate", "aas_core_codegen.intermediate._hierarchy", "aas_core_codegen.intermediate.construction", "aas_core_codegen.parse._translate"):
+            for _f in _m.functions.values():
+                _skips.check_skips(ctx, _f, "SKIPS", _base)
     ctx.rule("KEYED", "a local mapping subscripted with elements of a local list has an entry for every appended element", floor=1)
     from ..rules import keyed as _keyed
     for _m in ctx.p.modules.values():
